@@ -215,6 +215,7 @@ def glob_body(cfg):
                     # ---- cache transparency: same call after other calls / at other fill levels
                     if prelude:
                         other = Resolver("name", ignorecase=not ignorecase, relax=True)
+                        Resolver._match_cache.clear()  # the OTHER resolver is the first to compile this pattern
                         call(lambda: other.glob(nodes[start], path))
                         if prelude == 2:
                             dummy = nodes[0]
